@@ -189,6 +189,20 @@ func mgStmt(s ast.Stmt, ind string) string {
 	case *ast.AssignStmt:
 		switch v.Tok {
 		case token.DEFINE:
+			// f := func(a, b T) R { ... }: a local function; its body is a statement list (SFuncDef)
+			if len(v.Lhs) == 1 && len(v.Rhs) == 1 {
+				if fl, ok := v.Rhs[0].(*ast.FuncLit); ok {
+					if id, ok := v.Lhs[0].(*ast.Ident); ok && fl.Body != nil && len(fl.Body.List) > 1 {
+						var ps []string
+						for _, f := range fl.Type.Params.List {
+							for _, n := range f.Names {
+								ps = append(ps, mgCoqString(n.Name))
+							}
+						}
+						return "SFuncDef " + mgCoqString(id.Name) + " " + mgList(ps) + " " + mgStmts(fl.Body.List, ind)
+					}
+				}
+			}
 			return "SAssign true " + mgExprs(v.Lhs) + " " + mgExprs(v.Rhs)
 		case token.ASSIGN:
 			return "SAssign false " + mgExprs(v.Lhs) + " " + mgExprs(v.Rhs)
